@@ -218,6 +218,11 @@ func structuralSpec(rt reflect.Type) *TSpec {
 		}
 		return &TSpec{Kind: KStruct, Fields: fs}
 	}
+	for name, ut := range unsupTypes {
+		if ut.Kind() == rt.Kind() {
+			return Unsup(name)
+		}
+	}
 	// named basic kinds
 	for k, st := range scalarTypes {
 		if st.Kind() == rt.Kind() && k != KBytes && k != KTime && !k.IsNull() {
@@ -319,5 +324,50 @@ func init() {
 	RegisterNamed("TreeV2", TreeV2{})
 	RegisterNamed("ListV2", ListV2{})
 	RegisterNamed("MidV2", MidV2{})
+	markRecursive()
+}
+
+// Invalid recursive definitions (C08): the build of the type fails after
+// codecs for types that refer to it have been started.
+type BadRecComplex struct {
+	Kids []BadRecComplex `plenc:"1"`
+	C    complex64       `plenc:"2"`
+}
+
+type BadRecFunc struct {
+	Next *BadRecFunc `plenc:"1"`
+	V    int         `plenc:"2"`
+	F    func()      `plenc:"3"`
+}
+
+type BadRecUntagged struct {
+	M map[string]BadRecUntagged `plenc:"1"`
+	X int
+}
+
+type BadRecDup struct {
+	Kids []*BadRecDup `plenc:"1"`
+	A    int          `plenc:"2"`
+	B    string       `plenc:"2"`
+}
+
+type BadMutA struct {
+	B *BadMutB `plenc:"1"`
+}
+type BadMutB struct {
+	As []BadMutA `plenc:"1"`
+	Ch chan int  `plenc:"2"`
+}
+
+// BadNames lists the catalog types whose definition plenc must reject.
+var BadNames = []string{"BadRecComplex", "BadRecFunc", "BadRecUntagged", "BadRecDup", "BadMutA", "BadMutB"}
+
+func init() {
+	RegisterNamed("BadRecComplex", BadRecComplex{})
+	RegisterNamed("BadRecFunc", BadRecFunc{})
+	RegisterNamed("BadRecUntagged", BadRecUntagged{})
+	RegisterNamed("BadRecDup", BadRecDup{})
+	RegisterNamed("BadMutA", BadMutA{})
+	RegisterNamed("BadMutB", BadMutB{})
 	markRecursive()
 }
